@@ -12,6 +12,7 @@ from vlib import COQ, VERIF
 
 COQ_TARGETS = ("theories/AbiCheck.vo",)
 NEED_DRIVER = False
+LEVEL = "translation_validation"
 
 
 def run(ck):
